@@ -330,6 +330,23 @@ def gen(ctx):
 core.VARIANTS.setdefault("sm2null", (core.SAN_FLAGS, ["-DENABLE_SM2_ALGOR_ID_ENCODE_NULL=ON"]))
 
 
+def build_net_harness(variant="asan"):
+    """props/C15/harness_net.c against the same library build (vlib.core.build_harness names its output after the property only)"""
+    lib, log = core.build_lib(variant)
+    if lib is None:
+        return None, log
+    cflags, _ = core.VARIANTS[variant]
+    defs = ""
+    for l in open(os.path.join(core.BUILD, "lib_" + variant, "build.ninja")):
+        if l.strip().startswith("DEFINES ="):
+            defs = l.split("=", 1)[1].strip(); break
+    out = os.path.join(core.BUILD, "h_C15net_%s" % variant)
+    with core.Lock("h_C15net_%s" % variant):
+        rc, o = core.sh("gcc %s %s -I%s/include -I%s/harness -I%s/src -I%s/props/C15 -o %s %s %s -lpthread" % (
+            cflags, defs, core.REPO, core.ROOT, core.REPO, core.ROOT, out, os.path.join(core.ROOT, "props", "C15", "harness_net.c"), lib))
+    return (out if rc == 0 else None), log + o
+
+
 def oracle_flip(a):
     return None if a == "0" else "a single-bit modification of an issued object still verifies: " + a
 
@@ -358,6 +375,14 @@ def run(ctx):
                               oracle=lambda line, a, b: oracle_flip(a))
             continue
         core.differential(ctx, cases, exe, model, variant=v)
+        if v == "asan":
+            # x509_cert_check_crl once more, this time through the library's own HTTP client and a loopback server thread
+            netexe, nlog = build_net_harness(v)
+            if netexe is None:
+                core.harness_build_failed(ctx, nlog)
+            else:
+                netcases = [(l, k.replace("crlcheck:", "crlcheck-http:")) for (l, k) in cases if l.startswith("crlcheck ")]
+                core.differential(ctx, netcases, netexe, model, variant=v + "+loopback-http", shards=4)
         core.differential(ctx, flips, exe, model, variant=v, shards=min(len(flips), 10),
                           oracle=lambda line, a, b: oracle_flip(a))
     return finish(ctx)
